@@ -16,3 +16,10 @@ mut('C03-b', 'mps.py', "        A1 = A1 * sigma[:, None, None]\n    elif svd_dis
 mut('C08-b', 'krylov.py', "return V @ (u_hess @ (np.linalg.norm(v) * np.exp(dt*w_hess) * u_hess[0]))", "return np.linalg.norm(v) * (V @ (u_hess @ (np.exp(dt*w_hess) * u_hess[0])))", ['C08', 'C15'], expect='quiet', note='harmless re-association')
 mut('C11-a', 'bond_ops.py', "idx0 = np.argsort(q0, kind='mergesort')\n    idx1 = np.argsort(q1, kind='mergesort')\n    if np.any(idx0 - np.arange(len(idx0))):\n        # if not sorted yet...\n        q0 = q0[idx0]\n        A = A[idx0, :]\n    if np.any(idx1 - np.arange(len(idx1))):\n        # if not sorted yet...\n        q1 = q1[idx1]\n        A = A[:, idx1]\n\n    # maximum intermediate dimension\n    max_interm_dim = min(A.shape)\n\n    # keep track of intermediate dimension\n    D = 0\n\n    Q =",
     "idx0 = np.argsort(q0, kind='stable')\n    idx1 = np.argsort(q1, kind='stable')\n    if np.any(idx0 - np.arange(len(idx0))):\n        # if not sorted yet...\n        q0 = q0[idx0]\n        A = A[idx0, :]\n    if np.any(idx1 - np.arange(len(idx1))):\n        # if not sorted yet...\n        q1 = q1[idx1]\n        A = A[:, idx1]\n\n    # maximum intermediate dimension\n    max_interm_dim = min(A.shape)\n\n    # keep track of intermediate dimension\n    D = 0\n\n    Q =", ['C11', 'C01'], expect='quiet', note='harmless: another stable sort')
+
+mut('C14-a', 'krylov.py', "return (alpha[:numiter], beta[:numiter-1], V[:numiter, :].T)", "return (alpha[:numiter], beta[:numiter], V[:numiter, :].T)", ['C14'], note='early exit returns one beta too many')
+mut('C14-b', 'krylov.py', "            return H[:numiter, :numiter], V[:numiter, :].T", "            return H[:numiter, :numiter], V[:numiter+1, :].T", ['C14'], note='Arnoldi early exit returns an extra (unnormalised) vector')
+mut('C19-a', 'mps.py', "        mps.qD[ 0] = mps0.qD[ 0].copy()\n        mps.qD[-1] = mps0.qD[-1].copy()", "        mps.qD[ 0] = mps0.qD[ 0]\n        mps.qD[-1] = mps0.qD[-1].copy()", ['C19'], note='sum shares its leading bond charges with the first operand')
+mut('C16-b', 'opgraph.py', "        other = copy.deepcopy(other)\n", "", ['C16', 'C19'], note='OpGraph.add renames ids in the other graph')
+mut('C12-b', 'bond_ops.py', "    s = (s / w)**2\n", "    s /= w\n    s = s**2\n", ['C12', 'C19'], note='retained_bond_indices normalises the caller\'s array in place')
+mut('C19-b', 'evolution.py', "            psi.A[i] = Q.reshape((s[0], s[1], Q.shape[1]))\n            # update the left blocks", "            psi.A[i] = Q.reshape((s[0], s[1], Q.shape[1]))\n            H.A[i] *= 1.0\n            # update the left blocks", ['C19', 'C08'], expect='violation', note='in-place (value-preserving) write to the Hamiltonian: frame violation only visible statically')
